@@ -14,7 +14,7 @@
 (***************************************************************************)
 EXTENDS Integers, Sequences, FiniteSets, TLC, Json, IOUtils
 
-CONSTANTS Chains, Lite
+CONSTANTS Chains, Lite, Delay
 
 Trace == ndJsonDeserialize(IOEnv.TRACE_FILE)
 
@@ -62,7 +62,8 @@ B_receipts(k, c)   == { Tr(x) : x \in SetOf(St(k, c).receipts) }
 B_acks(k, c)       == { [t |-> Tr(x), code |-> x[4]] : x \in SetOf(St(k, c).acks) }
 B_status(k, c)     == LET S == SetOf(St(k, c).status) IN [t \in {Tr(x) : x \in S} |-> (CHOOSE x \in S : Tr(x) = t)[4]]
 B_fn(r, c)         == [d \in Chains \ {c} |-> r[d]]
-B_clients(k, c)    == [d \in Chains \ {c} |-> [latest |-> St(k, c).clients[d].latest, cons |-> SetOf(St(k, c).clients[d].cons)]]
+B_proc(r)          == LET S == SetOf(r) IN [x \in {e[1] : e \in S} |-> (CHOOSE e \in S : e[1] = x)[2]]
+B_clients(k, c)    == [d \in Chains \ {c} |-> [latest |-> St(k, c).clients[d].latest, cons |-> SetOf(St(k, c).clients[d].cons), proc |-> IF Delay = 0 THEN (0 :> 0) ELSE B_proc(St(k, c).clients[d].proc)]]
 
 Bind(k) ==
   LET S == SentAt(k) IN
@@ -206,13 +207,13 @@ C02_ForgedHeaderRejected(k) == (ln(k).ev = "UpdateClient" /\ ln(k).args.signer =
 C06_OnlyRelayers(k) == (ln(k).ev \in {"UpdateClient", "Recv"} /\ ln(k).res = "ok") => ln(k).registered
 C06_AckRelayerField(k) == (ln(k).ev = "Recv" /\ ln(k).res = "ok") => ln(k).wrote.relayer_ok
 C06_RejectNoChange(k) == (ln(k).ev \in {"UpdateClient", "Recv"} /\ ln(k).res # "ok") => Unchanged(k)
-C06_ClientsOnlyByUpdate(k) == \A c \in Chains : clients'[c] # clients[c] => (ln(k).ev \in {"UpdateClient", "Retoggle"} /\ ln(k).res = "ok" /\ ActChain(k) = c)
+C06_ClientsOnlyByUpdate(k) == \A c \in Chains : clients'[c] # clients[c] => (ln(k).ev \in {"UpdateClient", "Retoggle", "UpgradeRev"} /\ ln(k).res = "ok" /\ ActChain(k) = c)
 
 (* a restart of the chain from its own exported genesis loses and alters nothing: the replay guards (C01), the verified heights *)
 (* proofs are checked against (C02), the stored acknowledgements and commitments (C05), the sequences (C04)                     *)
-Restarted(k) == ln(k).ev = "Regenesis"
+Restarted(k) == ln(k).ev \in {"Regenesis", "UpgradeRev"}      \* (a client upgrade to a later revision forgets nothing either)
 C01_RestartKeepsReceipts(k) == Restarted(k) => (ln(k).res = "ok" /\ receipts' = receipts)
-C02_RestartKeepsClients(k) == Restarted(k) => (clients' = clients /\ rot' = rot)
+C02_RestartKeepsClients(k) == ln(k).ev = "Regenesis" => (clients' = clients /\ rot' = rot)
 C04_RestartKeepsSequences(k) == Restarted(k) => (seq' = seq /\ cseq' = cseq)
 C05_RestartKeepsAcks(k) == Restarted(k) => (acks' = acks /\ commits' = commits)
 
@@ -298,6 +299,7 @@ C_Step(k) ==
     [] ln(k).ev = "Retoggle" -> RetoggleEff(c, a.counter) /\ ln(k).res = "ok"
     [] ln(k).ev = "NewClient" -> NewClientEff(c, a.counter, a.name)
     [] ln(k).ev = "SendFake" -> UNCHANGED stateVars /\ ln(k).res = "ok"
+    [] ln(k).ev = "UpgradeRev" -> UpgradeRevEff(c, a.counter) /\ ln(k).res = "ok"
     [] ln(k).ev = "Regenesis" -> RegenesisEff(c) /\ ln(k).res = "ok"
     [] ln(k).ev = "Rotate" -> RotateEff(c, a.counter) /\ ln(k).res = "ok"
     [] ln(k).ev = "EnableLimit" -> EnableEff(c, a.token, <<a.cap, a.max, a.min>>) /\ ln(k).res = Res(EnableOK(c, a.token, <<a.cap, a.max, a.min>>))
